@@ -28,24 +28,7 @@ PID = "C05"
 TRANSLATORS = ["T-verdict", "T-solvedispatch"]
 
 # Genuine defects of halmos found by this check (see the final report / DESIGN 6, F8).
-KNOWN = [
-    {
-        "id": "C05-F8-shutdown-error-escapes-stuck-solve",
-        "property": "C05",
-        "what": "--early-exit: a valid counterexample shuts the solver executor down while the main loop is between its "
-                "is_shutdown() check and the synchronous solve of a stuck path; PopenExecutor.submit raises ShutdownError, "
-                "nobody catches it in run_test, run_tests reports [ERROR] / Exitcode.EXCEPTION instead of [FAIL]",
-        "match": {"defect": "shutdown-error-escapes-stuck-solve"},
-    },
-    {
-        "id": "C05-F8b-stuck-solve-exception-escapes",
-        "property": "C05",
-        "what": "same mechanism without --early-exit: any exception raised by the synchronous solve_low_level of a stuck path "
-                "(e.g. a `sat` answer whose model text parse_model_str cannot parse) leaves run_test; a test with a valid "
-                "counterexample on another path is reported [ERROR] / Exitcode.EXCEPTION instead of [FAIL]",
-        "match": {"defect": "stuck-solve-exception-escapes"},
-    },
-]
+KNOWN = common.known_for("C05")  # entries live in /verif/known_findings.json
 
 PARTIAL = ("Thread timing is replaced by forced orders (per-query delays, one stale read of the shutdown flag); CPython's "
            "ThreadPoolExecutor guarantee that done-callbacks have run when shutdown(wait=True) returns is assumed. A solver kill "
